@@ -13,7 +13,7 @@ from hypothesis import strategies as st
 from AegeanTools import catalogs
 from AegeanTools.angle_tools import dec2dms, dec2hms
 from AegeanTools.models import ComponentSource, IslandSource, SimpleSource
-from vlib.core import Res
+from vlib.core import Res, workdir
 
 PROP = "C18"
 SHARDS = {"quick": 8, "thorough": 16}
@@ -181,7 +181,7 @@ def check_case(c, big=1):
     res = Res()
     cat, full = make_catalog(c, big)
     fmt = c["fmt"]
-    d = tempfile.mkdtemp(prefix="c18_")
+    d = workdir("c18_")
     try:
         base = os.path.join(d, "cat." + fmt)
         meta = dict(c["meta"]) if c["meta"] else None
